@@ -33,10 +33,10 @@ def step (_ : Unit) (toks : List String) : Unit × String :=
       | _ => [])
     let awaits := natsOf (field rest "awaits")
     let roots := natsOf (field rest "roots")
-    let g : Async.AGraph := { deps := deps, awaits := awaits }
+    let g : Async.AGraph := { deps := deps, awaits := awaits, throws := (field rest "throws").toList.map (fun c => c == '1') }
     let (final, outs) := roots.foldl (fun (acc : Async.St × List String) r =>
       let s' := Async.evaluate g acc.1 r
-      (s', acc.2 ++ [if (s'.recOf r).status == .evaluated && s'.queue.isEmpty then "-" else "pending"])) (Async.St.init deps.length, [])
+      (s', acc.2 ++ [Async.outcomeOf s' r])) (Async.St.init deps.length, [])
     ((), s!"trace={",".intercalate (final.trace.map Async.showEv)} outcomes={",".intercalate outs}")
   | _ => ((), "bad-op")
 
